@@ -408,9 +408,21 @@ func Main(id, tier string) int {
 	vios := map[string]*Violation{}
 	var vioOrder []string
 	exhaustive := true
+	unreproduced := 0
 	for k := 0; k < n; k++ {
 		if cr := crashes[k]; cr != nil {
 			exhaustive = false
+			key := fmt.Sprintf("%s:worker-%s", id, cr.Kind)
+			if v, done := vios[key]; done {
+				// one reproduced crash of this kind is enough; the others are listed, not re-run (a hang costs minutes)
+				v.Count++
+				v.What += fmt.Sprintf("\nalso: worker %d %s at case index %d", k, cr.Kind, cr.Index)
+				continue
+			}
+			if unreproduced >= 3 {
+				agg.Caps = append(agg.Caps, "worker died, not re-run: "+cr.Kind)
+				continue
+			}
 			// confirm by re-running the single index in a fresh worker
 			confirmed := 0
 			for t := 0; t < 2; t++ {
@@ -419,7 +431,9 @@ func Main(id, tier string) int {
 					confirmed++
 				}
 			}
-			key := fmt.Sprintf("%s:worker-%s", id, cr.Kind)
+			if confirmed == 0 {
+				unreproduced++
+			}
 			what := fmt.Sprintf("worker %s at case index %d (reproduced %d/2 in a fresh worker): %s", cr.Kind, cr.Index, confirmed, lastLines(cr.Tail, 3))
 			if confirmed == 0 {
 				// not reproducible on its own: report as harness trouble, not as a property violation
